@@ -3,9 +3,11 @@ import Gonuts.Lemmas.TokenWire
 /-!
   # C14 — tokens survive serialisation exactly; decoding arbitrary text never crashes
 
-  Theorems over `Model.Token` (the Go code of `cashu/cashu.go` after the `fix:` commit for defect F9).  `encoding/json` and
-  `fxamacker/cbor` are the abstract `Codec`; everything else (`encoding/hex`, `encoding/base64`, the byte
-  slicing of the string, the Go map grouping, the wrapping sums, the panics) is modelled and proved.
+  Theorems over `Model.Token` (the Go code of `cashu/cashu.go` after the `fix:` commit for defect F9).  In the
+  general theorems `encoding/json` and `fxamacker/cbor` are the abstract `Codec` (any functions whatsoever);
+  everything else (`encoding/hex`, `encoding/base64`, the byte slicing of the string, the Go map grouping, the
+  wrapping sums, the panics) is modelled and proved.  `Model.TokenWire` adds executable models of the two
+  marshallers and parsers for their canonical output; `wire_lossless` and the `…_closed` theorems are about those.
 -/
 namespace Gonuts.Props.C14
 open Gonuts.Model Gonuts.Model.Token
